@@ -112,10 +112,29 @@ Print Assumptions C23_powmod_zero_modulus.
 
 (** negative exponents as coded: invert first (ZeroDivisionError if not invertible), then the positive power;
     without modulus a negative exponent raises ValueError *)
-Theorem C23_powmod_neg_as_coded_partial : forall p a n b, (1 <= n)%Z ->
+Theorem C23_powmod_neg_as_coded : forall p a n b, (1 <= n)%Z ->
   powmod p a (- n) (Some b) = bind (invert p a b) (fun a' => powmod p a' n (Some b)).
 Proof. exact powmod_neg_eq. Qed.
-Print Assumptions C23_powmod_neg_as_coded_partial.
+Print Assumptions C23_powmod_neg_as_coded.
+(** invert is correct (in the model's own ring operations): a' * a + t * b = 1 for some t, i.e. a' * a = 1 (mod b);
+    it never runs out of fuel or raises ValueError; and a negative power is the positive power of that inverse. *)
+Theorem C23_invert_correct : forall p a b r, prime p -> wf p a -> wf p b -> invert p a b = Ok r ->
+  inr p r /\ exists t, inr p t /\ add p (mul p r a) (mul p t b) = [1%Z].
+Proof. exact invert_correct. Qed.
+Print Assumptions C23_invert_correct.
+Theorem C23_invert_total : forall p a b, prime p -> wf p a -> wf p b ->
+  invert p a b <> NoFuel /\ invert p a b <> ValueErr.
+Proof. exact invert_total. Qed.
+Print Assumptions C23_invert_total.
+Theorem C23_powmod_neg_correct : forall p a n b r, prime p -> wf p a -> wf p b -> (1 <= n)%Z ->
+  powmod p a (- n) (Some b) = Ok r ->
+  exists a', invert p a b = Ok a' /\ powmod p a' n (Some b) = Ok r /\
+             exists t, inr p t /\ add p (mul p a' a) (mul p t b) = [1%Z].
+Proof. exact powmod_neg_correct. Qed.
+Print Assumptions C23_powmod_neg_correct.
+Example C23_invert_nonvacuous :
+  invert 7 [1;2;3;4;5]%Z [3;0;2]%Z = Ok [5;1]%Z /\ powmod 7 [1;2;3;4;5]%Z (-2) (Some [3;0;2]%Z) = Ok [6;3]%Z.
+Proof. vm_compute. auto. Qed.
 Theorem C23_powmod_neg_no_modulus : forall p a n, (n < 0)%Z -> powmod p a n None = ValueErr.
 Proof. exact powmod_neg_no_modulus. Qed.
 Print Assumptions C23_powmod_neg_no_modulus.
